@@ -15,6 +15,7 @@ import io
 import json
 import zlib
 from dataclasses import dataclass
+from enum import Enum
 from pathlib import Path
 from typing import Any, Protocol
 
@@ -43,14 +44,15 @@ TRUSTED = [
     "request classes of the property and is not modelled",
 ]
 RULE = (
-    "request classes = route x method kind x body (valid | parseFail(9 exception classes) | badMeta(6) | badParams | "
-    "cancel) x content type x content encoding x wire size x auth x token x behaviour.  quick: the product of the six "
-    "dimensions the property's quantifier names (9 720 classes, exhaustive) with size/auth/behaviour drawn per class, "
-    "plus size x auth x behaviour x route x kind on otherwise good requests, plus route x kind x body x token x behaviour "
-    "(2 592 classes, exhaustive) behind good headers; thorough: the full product (146 880 "
-    "classes, exhaustive).  Every class is instantiated with a freshly generated concrete request (method name, "
-    "parameters, malformed bytes found by seeded mutation + pyarrow classification, codec, junk headers, tampering "
-    "variant).  A case is distinct by (class, concrete request bytes, headers); all cases are non-trivial."
+    "request classes = route x method kind x body (valid | parseFail(10 exception classes) | badMeta(6) | badParams(2) | "
+    "cancel | badValue(9 conversion-failure classes: unknown Enum member, undecodable nested-dataclass blob, ...)) x content "
+    "type (correct | wrong | missing | wrong-but-extending-the-right-one) x content encoding x wire size x auth x token x "
+    "behaviour.  quick: the product of the six dimensions the property's quantifier names (20 880 classes, exhaustive) with "
+    "size/auth/behaviour drawn per class, plus size x auth x behaviour x route x kind on otherwise good requests, plus route "
+    "x kind x body x token x behaviour (4 176 classes, exhaustive) behind good headers; thorough: the full product (334 080 "
+    "classes, exhaustive).  Every class is instantiated with a freshly generated concrete request (method name, parameters, "
+    "malformed bytes found by seeded mutation + pyarrow classification, codec, junk headers, tampering variant).  A case "
+    "is distinct by (class, concrete request bytes, headers); all cases are non-trivial."
 )
 PARTIAL = [
     "parse exception classes the mutation search cannot produce in this pyarrow build (reported as unrealized:* tags) "
@@ -80,9 +82,10 @@ KINDS = ["unary", "producer", "exchanger", "unknown"]
 PARSE_EXC = ["arrowInvalid", "osError", "arrowNotImplemented", "arrowKeyError", "arrowTypeError", "arrowOther",
              "ipcError", "ipcErrorLate", "unicodeDecode", "stopIteration"]
 META = ["noMethodKey", "badMethodUtf8", "noVersionKey", "badVersion", "methodMismatch", "protocolVersion"]
+DESER_EXC = ["keyError", "valueError", "overflowError", "typeError", "arrowInvalid", "ipcError", "osError", "stopIteration", "other"]
 BODIES = (["valid"] + [f"parseFail:{e}" for e in PARSE_EXC] + [f"badMeta:{m}" for m in META]
-          + ["badParams:mismatch", "badParams:badNames", "cancel"])
-CTYPES = ["correct", "wrong", "missing"]
+          + ["badParams:mismatch", "badParams:badNames", "cancel"] + [f"badValue:{e}" for e in DESER_EXC])
+CTYPES = ["correct", "wrong", "missing", "wrongExtends"]
 CENCS = ["none", "supported", "unsupported", "corrupt", "bomb"]
 SIZES = ["within", "oversize"]
 AUTHS = ["ok", "rejected"]
@@ -128,6 +131,7 @@ def _fail(ctx: Any, case: Any, key: str, what: str) -> None:
 
 from vgi_rpc.metadata import CALL_STATE_KEY, CANCEL_KEY, PROTOCOL_VERSION_KEY, STATE_KEY  # noqa: E402
 from vgi_rpc.rpc import AnnotatedBatch, AuthContext, CallContext, OutputCollector, RpcServer, Stream, StreamState  # noqa: E402
+from vgi_rpc.utils import ArrowSerializableDataclass  # noqa: E402
 
 CALLS: list[str] = []
 RPC_METHOD_KEY = b"vgi_rpc.method"
@@ -175,8 +179,23 @@ class ExState(StreamState):
         CALLS.append("exch.cancel")
 
 
+class Color(Enum):
+    RED = "red"
+    GREEN = "green"
+
+
+@dataclass(frozen=True)
+class Inner(ArrowSerializableDataclass):
+    a: int = 0
+    b: str = ""
+
+
 class HttpProto(Protocol):
     protocol_version = PROTO_VERSION
+
+    def paint(self, color: Color, inner: Inner) -> int: ...
+    def paint_rows(self, color: Color, inner: Inner) -> Stream[GenState]: ...
+    def paint_echo(self, color: Color, inner: Inner) -> Stream[ExState]: ...
 
     def echo(self, n: int, fail: bool) -> bytes: ...
     def gen(self, n: int, size: int, fail_init: bool, fail_at: int) -> Stream[GenState]: ...
@@ -184,6 +203,19 @@ class HttpProto(Protocol):
 
 
 class Impl:
+    def paint(self, color: Color, inner: Inner) -> int:
+        CALLS.append("paint")
+        return inner.a
+
+    def paint_rows(self, color: Color, inner: Inner) -> Stream[GenState]:
+        CALLS.append("paint_rows.init")
+        return Stream(output_schema=pa.schema([("x", pa.binary())]), state=GenState(1, 1, -1))
+
+    def paint_echo(self, color: Color, inner: Inner) -> Stream[ExState]:
+        CALLS.append("paint_echo.init")
+        return Stream(output_schema=pa.schema([("y", pa.binary())]), state=ExState(0),
+                      input_schema=pa.schema([("v", pa.int64())]))
+
     def echo(self, n: int, fail: bool) -> bytes:
         CALLS.append("echo")
         if fail:
@@ -228,7 +260,7 @@ class Env:
         self.app = make_wsgi_app(self.server, token_key=TOKEN_KEY, max_request_bytes=MAX_REQ,
                                  max_response_bytes=MAX_RESP, authenticate=_authenticate)
         self.client = falcon.testing.TestClient(self.app)
-        self.schemas = {m: self.server._methods[m].params_schema for m in ("echo", "gen", "exch")}
+        self.schemas = {m: self.server._methods[m].params_schema for m in ("echo", "gen", "exch", "paint", "paint_rows", "paint_echo")}
         # how many batches the first producer turn holds (so a continuation can be made to fail on its first tick)
         md, nb = self._init_tokens("gen", {"n": 8, "size": 1500, "fail_init": False, "fail_at": -1})
         self.first_turn = nb
@@ -508,6 +540,9 @@ def spec_defects(c: dict[str, str]) -> list[tuple[str, int]]:
     elif body.startswith("badMeta"):
         if route != "exchange":  # request metadata belongs to unary / init requests
             d.append(("malformed", 400))
+    elif body.startswith("badValue"):
+        if route != "exchange":  # parameter values travel on unary / init requests ("parameter ... rejections")
+            d.append(("malformed", 400))
     elif body.startswith("badParams"):
         if route != "exchange" or kind == "exchanger":  # a producer continuation's tick columns are not looked at
             d.append(("malformed", 400))
@@ -545,6 +580,60 @@ def _zstd(data: bytes) -> bytes:
     return zstandard.ZstdCompressor(level=3).compress(data)
 
 
+PAINT_OF_KIND = {"unary": "paint", "producer": "paint_rows", "exchanger": "paint_echo"}
+GOOD_BLOB = Inner(7, "seven").serialize_to_bytes()
+_BLOB_POOL: dict[str, list[bytes]] = {}
+
+
+def classify_blob(blob: bytes) -> str | None:
+    """What decoding a nested-dataclass blob raises (independent pyarrow read of the single-row IPC stream)."""
+    try:
+        r = ipc.open_stream(pa.BufferReader(blob))
+        b = r.read_next_batch()
+    except StopIteration:
+        return "stopIteration"
+    except pa.ArrowInvalid:
+        return "arrowInvalid"
+    except OSError:
+        return "osError"
+    except Exception:  # noqa: BLE001
+        return None
+    if b.num_rows != 1:
+        return "valueError"      # documented: ValueError for a wrong row count
+    return None
+
+
+def _blob_pool(rng: Any) -> dict[str, list[bytes]]:
+    if not _BLOB_POOL:
+        r = ipc.open_stream(pa.BufferReader(GOOD_BLOB))
+        sch = r.schema
+        one = r.read_next_batch()
+        cands = [b"", b"garbage", b"\x00", GOOD_BLOB[:40], GOOD_BLOB[: len(GOOD_BLOB) // 2], _ipc(sch, []),
+                 _ipc(sch, [(pa.concat_batches([one, one]), None)]), _ipc(sch, [(one.slice(0, 0), None)])]
+        import random as _r
+
+        rr = _r.Random(1234)
+        for _ in range(400):
+            bb = bytearray(GOOD_BLOB)
+            bb[rr.randrange(len(bb))] ^= 1 << rr.randrange(8)
+            cands.append(bytes(bb))
+        for c in cands:
+            k = classify_blob(c)
+            if k is not None and len(_BLOB_POOL.setdefault(k, [])) < 6:
+                _BLOB_POOL[k].append(c)
+    return _BLOB_POOL
+
+
+def bad_value(exc: str, rng: Any) -> dict[str, Any] | None:
+    """Parameter values whose conversion in `_deserialize_params` raises `exc` (None: no such value is known)."""
+    if exc == "keyError":   # Enum members travel by name: `Color[name]`
+        return {"color": rng.choice(["PURPLE", "", "red", "Red", "GREEN ", "RED\n", "0"]), "inner": GOOD_BLOB}
+    lst = _blob_pool(rng).get(exc)
+    if not lst:
+        return None
+    return {"color": rng.choice(["RED", "GREEN"]), "inner": rng.choice(lst)}
+
+
 def _spoil_field_name(body: bytes, name: str, rng: Any) -> bytes:
     """Make the schema's field `name` invalid UTF-8 in place (flatbuffer string: uint32 length, bytes, NUL)."""
     import struct
@@ -568,6 +657,12 @@ def build_request(env: Env, pool: ParsePool, c: dict[str, str], rng: Any) -> dic
     """A concrete request of class `c`; None if the class cannot be realised (e.g. an exception class pyarrow never raises)."""
     route, kind, body_cls = c["route"], c["kind"], c["body"]
     name = METHOD_OF_KIND.get(kind) or rng.choice(UNKNOWN_NAMES)
+    bad_kwargs = None
+    if body_cls.startswith("badValue:") and route != "exchange":
+        bad_kwargs = bad_value(body_cls.split(":")[1], rng)
+        if bad_kwargs is None:
+            return None
+        name = PAINT_OF_KIND.get(kind) or name
     path = "/" + name + {"unary": "", "init": "/init", "exchange": "/exchange"}[route]
     notes: dict[str, Any] = {"method": name}
     beh = c["beh"]
@@ -596,11 +691,16 @@ def build_request(env: Env, pool: ParsePool, c: dict[str, str], rng: Any) -> dic
                 kwargs["fail_init"] = True
         else:
             kwargs = {}
+        if bad_kwargs is not None:
+            kwargs = dict(bad_kwargs)
         base_kind = f"{route}:{name if name in METHOD_OF_KIND.values() else 'unknown'}"
         edit = None
         schema = None
         rows = None
         patch_name = None
+        if bad_kwargs is not None:
+            schema = env.schemas["paint"]   # unknown methods get the same columns
+            notes["bad_value"] = body_cls.split(":")[1]
         if body_cls.startswith("badMeta:"):
             m = body_cls.split(":")[1]
             other = rng.choice([x for x in ("echo", "gen", "exch", "zzz", name + "x", "") if x != name])
@@ -796,6 +896,9 @@ def build_request(env: Env, pool: ParsePool, c: dict[str, str], rng: Any) -> dic
         headers["Content-Type"] = CT
     elif c["ctype"] == "wrong":
         headers["Content-Type"] = rng.choice(WRONG_CTYPES)
+    elif c["ctype"] == "wrongExtends":
+        # a *different* media type that merely begins with the right one (no parameters: `;…` would be the same type)
+        headers["Content-Type"] = CT + rng.choice(["2", "ing", "+json", ".v2", "x", "-batch", "s", "+zstd", "0", "_"])
     if c["auth"] == "ok":
         headers["Authorization"] = "Bearer ok"
     else:
@@ -1036,7 +1139,7 @@ def run(ctx: Any) -> None:
         classes = _classes_quick(ctx.rng)
         _run_classes(ctx, env, pool, classes, 1, "q")
         ctx.exhaustive = True
-        ctx.note("class_product", "9720 = route x kind x body x content-type x content-encoding x token (exhaustive); "
+        ctx.note("class_product", "route x kind x body x content-type x content-encoding x token (exhaustive); "
                                   "size/auth/behaviour drawn per class")
 
     # ---- byte-level fuzz stream: good headers, mutated bodies, all routes
